@@ -80,7 +80,11 @@ def Ex.subMergers : Ex → List Ex → List (Option SM)
       if subs.any (fun s => e.sameStr s) then
         subs.map (fun s => if e.sameStr s then some (.direct e) else none)
       else (w.subMergers subs).map (fun sm => sm.map (SM.cond c))
-  | .bounded w _ _, subs => w.subMergers subs
+  | .bounded w lo hi, subs =>
+      let e := Ex.bounded w lo hi
+      if subs.any (fun s => e.sameStr s) then
+        subs.map (fun s => if e.sameStr s then some (.direct e) else none)
+      else w.subMergers subs
   | .shift w off, subs =>
       let e := Ex.shift w off
       if subs.any (fun s => e.sameStr s) then
